@@ -130,6 +130,18 @@ def box_algebra(d):
                  "do_intersect is true exactly when the overlap has non-negative extent in every dimension")
         sx.check(symx.And(*[symx.And(b1.mini[i] == lo1[i], b1.maxi[i] == hi1[i], b2.mini[i] == lo2[i], b2.maxi[i] == hi2[i])
                             for i in range(d)]), "union/intersection leave their operands unchanged")
+        # the results are boxes of their own: enlarging one (the documented mutator) never shows on an operand, whether the
+        # operands are nested, equal, overlapping or disjoint
+        p = sx.real("later_pad", 0)
+        sx.assume(p > 0)
+        for r, nm in ((u, "union"), (it, "intersection")):
+            try:
+                r.pad(arr([p] * d, sx))
+            except Exception as e:
+                sx.check(False, "pad raised on the result of a box operation", detail=repr(e))
+                return
+            sx.check(symx.And(*[symx.And(b1.mini[i] == lo1[i], b1.maxi[i] == hi1[i], b2.mini[i] == lo2[i], b2.maxi[i] == hi2[i])
+                                for i in range(d)]), "padding the %s of two boxes leaves both operands unchanged" % nm)
     return h
 
 
@@ -309,6 +321,35 @@ def rotation_axis(sx):
         same(sx, ax, sx_ax, "rotate_around_axis leaves its axis unchanged")
 
 
+INT_VECS = [(1, 0, 0), (2, -1, 3), (0, 5, -4)]
+
+
+def rotation_axis_int(sx):
+    """vectors given with integer entries (int array, tuple of ints, integer Vec) are rotated like their float twins"""
+    import mouette.geometry.rotations as R
+    from mouette.geometry import Vec
+    sm = shims.SymMath()
+    names = dict(math=sm, Vec=shims.obj_vec_class()) if sx.symbolic else {}
+    with shims.rebound(R, **names):
+        xi = INT_VECS[sx.choice("vector", len(INT_VECS))]
+        form = sx.choice("form", 3)
+        x = [np.array(xi, dtype=np.int64), tuple(xi), Vec(np.array(xi, dtype=np.int64))][form]
+        ax = arr([sx.real("ax%d" % i) for i in range(3)], sx)
+        ang = sx.real("angle")
+        sx.assume(_norm2(ax) != 0)
+        sx.assume(symx.Or(ang >= 1e-12, ang <= -1e-12))
+        tag = " [integer input: %s]" % ["int64 array", "tuple of ints", "integer Vec"][form]
+        try:
+            y = R.rotate_around_axis(x, ax, ang)
+        except Exception as e:
+            sx.check(False, "rotate_around_axis raised" + tag, detail=repr(e))
+            return
+        sx.check_eq(_norm2(y), _norm2(xi), "rotate_around_axis preserves the norm" + tag)
+        sx.check_eq(sum(y[i] * ax[i] for i in range(3)), sum(xi[i] * ax[i] for i in range(3)),
+                    "rotate_around_axis fixes the component along the axis" + tag)
+        sx.check(tuple(int(v) for v in x) == tuple(xi), "rotate_around_axis leaves its input unchanged" + tag)
+
+
 def _vecs(sx, names):
     from mouette.geometry import Vec
     return [Vec(arr([sx.real("%s%d" % (n, i)) for i in range(3)], sx)) for n in names]
@@ -466,6 +507,8 @@ def obligations(tier):
     obs.append(Ob("rotate-2d", rotations, covers=C_ROT, note="rotate_2d is an isometry"))
     obs.append(Ob("rotate-axis", rotation_axis, covers=C_ROT + C_VEC, required=not q and False,
                   note="rotate_around_axis is an isometry fixing its axis (one normalisation)"))
+    obs.append(Ob("rotate-axis-int", rotation_axis_int, covers=C_ROT + C_VEC, required=False,
+                  note="rotate_around_axis on integer-typed vectors (symbolic axis and angle)"))
     for w in ("angle_3pts", "angle_2vec3D", "signed_angle_2vec3D", "signed_angle_3pts"):
         obs.append(Ob("angle-" + w, angles(w), covers=C_GEOM, note=w + ": range, symmetry / antisymmetry (atan2 axioms)"))
     obs.append(Ob("angle-reduction", angle_reduction, covers=C_MATHS, note="principal_angle / angle_diff"))
